@@ -528,7 +528,7 @@ Lemma eng_obs_finished : forall recipe seed n,
   eng_obs recipe (iter n (eng_step recipe) (eng_init recipe seed)) = run_prog_seeded recipe seed.
 Proof.
   intros recipe seed n Hf Hn. rewrite eng_iter in *. simpl fst in Hf.
-  unfold eng_obs, run_prog_seeded, run_core. simpl fst. simpl snd.
+  unfold eng_obs, run_prog_seeded, run_core0. simpl fst. simpl snd.
   destruct (window recipe) as [s e] eqn:W. simpl fst in *. simpl snd in *.
   unfold run_sim. rewrite Nat.add_1_r.
   rewrite (run_loop_iter_ge _ _ _ n (Z.to_nat (e - s)) _ Hn Hf). reflexivity.
